@@ -206,7 +206,6 @@ macro_rules! vk_bytes_sbe_ctop {
     };
 }
 vk_bytes_sbe_ctop!(vk_int_bytes_sbe_ctop_pos, false, [1, 0x7f, 0x80, 0x1234, 1 << 63, u64::MAX]);
-vk_bytes_sbe_ctop!(vk_int_bytes_sbe_ctop_neg_a, true, [0x1235, 0x81, u64::MAX]);
 // tops where magnitude - 1 changes its byte length / sign byte when the low words are zero
 vk_bytes_sbe_ctop!(vk_int_bytes_sbe_ctop_neg_b, true, [1, 0x80, 0x100, 1 << 63]);
 
